@@ -66,7 +66,10 @@ def run(ctx):
     ok_x = vlib.step_extract(ctx)
     ok_p = vlib.step_prove(ctx) if ok_x else False
     cases = srcref_cases.all_cases()
+    # the same tour with the package reached through a symbolic link (linked site-packages, editable installs)
+    cases = cases + [("tour-package-through-link", "linked", c[2], c[3], c[4]) for c in cases if c[0] == "tour-lf"][:1]
     d = tempfile.mkdtemp(prefix="nadaverif_c19_")
+    os.symlink(vlib.REPO, os.path.join(d, "link_to_repo"))
     total_items, nviol = 0, 0
     samples = []
     try:
@@ -79,7 +82,8 @@ def run(ctx):
                 with open(os.path.join(d, dname, "c19_helper_module.py"), "w") as f:
                     f.write(srcref_cases.HELPER_MODULE)
             rc, out, err, dt = vlib.run([vlib.PY, os.path.join(vlib.VERIF, "tools", "run_one.py"), path, "--script"], 120,
-                                        cwd=d, env=vlib.impl_env())
+                                        cwd=d, env=(dict(vlib.impl_env(), PYTHONPATH=os.path.join(d, "link_to_repo"))
+                                                    if name == "tour-package-through-link" else vlib.impl_env()))
             lines_ = [l for l in out.splitlines() if l.startswith("{")]
             if not lines_:
                 raise RuntimeError(f"run_one failed on {name}: {vlib.clean_noise(err)[-500:]}")
